@@ -3,8 +3,8 @@
    models.py by the correspondence runs (and, for the per-variable rules, by bridge/VarsBridge.v). *)
 From Coq Require Import List ZArith Bool Arith.
 From PV Require Import Xnum Select PyLib Argsort Vars Vars_proofs Task_proofs.
-From PVGen Require Import GenHyper GenTask.
-From PVBridge Require Import VarsBridge TaskBridge.
+From PVGen Require Import GenHyper GenTask GenMultiVar.
+From PVBridge Require Import VarsBridge TaskBridge MultiVarBridge.
 
 (* the Task-level loops and comprehensions as REGENERATED from models.py by T-core (the dimension computed by __init__, get_variables, get_bounds with its two
    accumulators, transform_solution with its running counter, slices and dict) ARE the model's functions the theorems below are about - parametric in the per-variable
@@ -18,6 +18,27 @@ Theorem C14_get_bounds_regenerated : forall t,
 Proof. exact sides_of_bounds. Qed.
 Theorem C14_transform_solution_regenerated : forall t x, gen_task_transform_solution t x = transform_solution t x.
 Proof. exact transform_solution_bridge. Qed.
+(* ... and those per-variable methods are, class by class, what models.py says (REGENERATED size(), has_children(), get_bounds() of every variable class) *)
+Theorem C14_variable_sizes_regenerated :
+  (forall lo hi, gen_cont_size = size (VCont lo hi)) /\ (forall los his, gen_cmv_size los = size (VContMulti los his)) /\
+  (forall los his, gen_mov_size los = size (VMultiObj los his)) /\ (forall n, gen_disc_size = size (VDisc n)) /\
+  (forall C (choices : list (list C)), gen_dmv_size C choices = size (VDiscMulti (map (@length C) choices))) /\
+  (forall n, gen_bin_size n = size (VBinary (Z.of_nat n))) /\ (forall n, gen_perm_size = size (VPerm n)).
+Proof. exact size_bridge. Qed.
+Theorem C14_has_children_regenerated :
+  (forall lo hi, gen_cont_has_children = has_children (VCont lo hi)) /\ (forall los his, gen_cmv_has_children = has_children (VContMulti los his)) /\
+  (forall los his, gen_mov_has_children = has_children (VMultiObj los his)) /\ (forall n, gen_disc_has_children = has_children (VDisc n)) /\
+  (forall ns, gen_dmv_has_children = has_children (VDiscMulti ns)) /\ (forall k, gen_bin_has_children = has_children (VBinary k)) /\
+  (forall n, gen_perm_has_children = has_children (VPerm n)).
+Proof. exact has_children_bridge. Qed.
+Theorem C14_variable_bounds_regenerated :
+  (forall los his, length los = length his ->
+     let gb := gen_cmv_get_bounds los his in (map BSNum (fst gb), map BSNum (snd gb)) = (lowers (VContMulti los his), uppers (VContMulti los his))) /\
+  (forall los his, length los = length his ->
+     let gb := gen_mov_get_bounds los his in (map BSNum (fst gb), map BSNum (snd gb)) = (lowers (VMultiObj los his), uppers (VMultiObj los his))) /\
+  (forall ns, gen_dmv_get_bounds (children (VDiscMulti ns)) = (lowers (VDiscMulti ns), uppers (VDiscMulti ns))) /\
+  (forall n, gen_bin_get_bounds n = (lowers (VBinary (Z.of_nat n)), uppers (VBinary (Z.of_nat n)))).
+Proof. exact (conj cmv_get_bounds_bridge (conj mov_get_bounds_bridge (conj dmv_get_bounds_bridge bin_get_bounds_bridge))). Qed.
 
 (* what T-core does not translate of Task (the statements of __init__ around the dimension, empty_solution with its random draws) has exactly the modelled text *)
 Theorem C14_task_accessors_regenerated : gen_task_methods_shape = true.
@@ -81,3 +102,6 @@ Print Assumptions C14_correct_solution_pointwise.
 Print Assumptions C14_correct_solution_in_space.
 Print Assumptions C14_transform_slices.
 Print Assumptions C14_transform_keys.
+Print Assumptions C14_variable_sizes_regenerated.
+Print Assumptions C14_has_children_regenerated.
+Print Assumptions C14_variable_bounds_regenerated.
